@@ -156,6 +156,12 @@ type State struct {
 	exempt    []string // key|base of arrays owned by monitors (never framed)
 	vararg    map[ssa.Value][]Val // element values of compiler-generated variadic argument arrays
 	spawned   []spawnRec          // goroutines started by `go` and not yet joined by WaitGroup.Wait
+	onceRun   []onceRec           // sync.Once bodies being executed in place: `done` is set when the body has returned
+}
+
+type onceRec struct {
+	ref   string
+	depth int
 }
 
 type spawnRec struct {
@@ -203,6 +209,7 @@ func (s *State) clone() *State {
 	n.frames = append([]*inlFrame(nil), s.frames...)
 	n.exempt = s.exempt
 	n.spawned = append([]spawnRec(nil), s.spawned...)
+	n.onceRun = append([]onceRec(nil), s.onceRun...)
 	if s.vararg != nil {
 		n.vararg = make(map[ssa.Value][]Val, len(s.vararg))
 		for k, v := range s.vararg {
